@@ -29,8 +29,8 @@ def itemOk (c : Cond) (k : Kind) : Bool :=
   | .theExc => true
 
 /-- `cond_res and isinstance(cond_res, Exception)` -/
-def excOk (c : Cond) (cls : Nat) : Bool :=
-  match c.eval (.exc cls) 0 with
+def excOk (c : Cond) (cls p : Nat) : Bool :=
+  match c.eval (.exc cls p) 0 with
   | .theExc => true
   | _ => false
 
@@ -61,11 +61,11 @@ def body (cond : Cond) (ttl k n start findur : Nat) : List (Kind × Nat) → Ttl
     let t := advance t findur
     let spent := t.now - start
     (if ok && decide (i ≠ 0) && decide (spent < ttl) then t.write (ckey k 0) (.int i) (some (ttl - spent)) else t, [])
-  | (.exc c, d) :: _, t, ok, i =>
+  | (.exc c p, d) :: _, t, ok, i =>
     let t := advance t d
     let spent := t.now - start
-    let r := Res.exc c n
-    (if ok && excOk cond c && decide (spent < ttl) then
+    let r := Res.exc c p n
+    (if ok && excOk cond c p && decide (spent < ttl) then
         (t.write (ckey k (i + 1)) r.enc (some ttl)).write (ckey k 0) (.int (i + 1 : Nat)) (some (ttl - spent))
       else t, [r])
   | (kd, d) :: rest, t, ok, i =>
